@@ -60,6 +60,8 @@ def strategy_(draw):
         "filter": draw(st.booleans()),
         "window": draw(st.sampled_from([None, 1, 3, 7])),
         "rate_seed": draw(st.integers(0, 10**6)),
+        "index": draw(st.sampled_from(["range", "repeated", "offset"])),
+        "index_period": draw(st.integers(5, 30)),
     }
 
 
@@ -208,6 +210,10 @@ def check_case(case) -> Result:
         if not case["filter"]:
             pres = pf.copy()  # unfiltered tables must not contain missing pressures
         prod = pd.DataFrame({"Days": days, "Gas": gas, "Pressure": pres})
+        if case.get("index") == "repeated":  # row labels as from monthly files concatenated without ignore_index
+            prod.index = np.arange(n) % case["index_period"]
+        elif case.get("index") == "offset":
+            prod.index = np.arange(n) + 500
         params = Parameters()
         params.add("tau", value=case["tau"])
         params.add("M", value=case["M"])
